@@ -90,15 +90,21 @@ def fidelity(chk, quick):
                 n += 1
                 env = {"BLOCKWATCH_AI_API_URL": closed_port_url() if fault == "refuse" else fake.url,
                        "BLOCKWATCH_AI_API_KEY": "sk-" + cid, "BLOCKWATCH_AI_MODEL": "model-" + cid}
+                if n % 2:
+                    env["OPENAI_API_KEY"] = "sk-ambient-must-not-be-used"
                 cases.append({"id": cid, "files": {"d/ai.py": "\n".join(lines) + "\n"}, "diff": None, "args": [], "terminal": True,
                               "env": env})
                 meta[cid] = (cls, reply, fault, blocks, target)
         # missing key: nothing may be sent
-        for k in range(3):
+        # (the key is BLOCKWATCH_AI_API_KEY and nothing else: an ambient OPENAI_API_KEY, or an empty value, is "missing")
+        ambient = [{}, {"OPENAI_API_KEY": "sk-ambient"}, {"BLOCKWATCH_AI_API_KEY": ""},
+                   {"OPENAI_API_KEY": "sk-ambient", "OPENAI_ORG_ID": "org", "OPENAI_PROJECT_ID": "proj"},
+                   {"OPENAI_API_KEY": "sk-ambient", "BLOCKWATCH_AI_API_KEY": ""}, {"BLOCKWATCH_AI_MODEL": "m"}]
+        for k, amb in enumerate(ambient):
             key = "nokey%d" % k
             cid = "nokey%d" % k
             cases.append({"id": cid, "files": {"ai.py": '# <block check-ai="c [[%s]]">\nbody\n# </block>\n' % key}, "diff": None,
-                          "args": [], "terminal": True, "env": {"BLOCKWATCH_AI_API_URL": fake.url}})
+                          "args": [], "terminal": True, "env": dict(amb, BLOCKWATCH_AI_API_URL=fake.url)})
             meta[cid] = ("nokey", None, None, [(key, None, None, 1)], 0)
         res = vlib.run_cli(cases, timeout=60)
         with fake.lock:
